@@ -144,3 +144,45 @@ Proof.
   intros R M Hp. unfold strip_bonding_descriptors. rewrite run_app, R. cbn [bind run]. unfold step. rewrite M.
   unfold atom_step. cbn. unfold bracket_done. rewrite Hp. reflexivity.
 Qed.
+
+(** ** the annotation dict as the list `nx.set_node_attributes(mol_graph, attributes)` receives *)
+Lemma nd_update_keys_fresh k a d : ~ In k (map fst d) -> map fst (nd_update k a d) = map fst d ++ [k].
+Proof.
+  induction d as [|[k' y] r IH]; cbn; intros H; [reflexivity|].
+  destruct (Nat.eqb_spec k k') as [->|N]; [exfalso; apply H; now left|]. cbn. f_equal. apply IH. intros HI; apply H; now right.
+Qed.
+Lemma nodup_snoc_nat (l : list nat) x : NoDup l -> ~ In x l -> NoDup (l ++ [x]).
+Proof.
+  induction l as [|y r IH]; cbn; intros ND H; [repeat constructor; intros []|].
+  inversion ND as [|? ? Hn Hr]; subst. constructor.
+  - intros HI. apply in_app_or in HI. destruct HI as [HI|[->|[]]]; [contradiction|]. apply H. now left.
+  - apply IH; [assumption|]. intros HI. apply H. now right.
+Qed.
+Lemma spec_item_nodup fo sp i sp' : spec_item fo sp i = Ok sp' -> ann_lt sp -> NoDup (map fst (s_ann sp)) -> NoDup (map fst (s_ann sp')).
+Proof.
+  intros H A ND. unfold ann_lt in A.
+  destruct i as [d|t|d]; cbn [spec_item] in H; [injection H as <-; exact ND| |injection H as <-; exact ND].
+  destruct t; cbn [spec_tok] in H; try (injection H as <-; exact ND).
+  destruct (fragment_node_parser fo _) as [a|]; cbn [bind] in H; [|discriminate]. injection H as <-. cbn [s_ann].
+  rewrite nd_update_keys_fresh; [apply nodup_snoc_nat; [exact ND|]|]; intros HI; specialize (A _ HI); lia.
+Qed.
+Lemma spec_run_nodup fo items : forall sp sp', spec_run fo sp items = Ok sp' -> ann_lt sp -> NoDup (map fst (s_ann sp)) ->
+  NoDup (map fst (s_ann sp')).
+Proof.
+  induction items as [|i r IH]; intros sp sp' H A ND; cbn [spec_run] in H; [injection H as <-; exact ND|].
+  destruct (spec_item fo sp i) as [sp1|] eqn:E; cbn [bind] in H; [|discriminate].
+  destruct (spec_item_inv _ _ _ _ E A) as [A1 _]. apply (IH sp1 sp' H A1). now apply (spec_item_nodup fo sp i sp1).
+Qed.
+Lemma nd_get_in {A} k (d : ndict A) x : nd_get k d = Some x -> In (k, x) d.
+Proof.
+  induction d as [|[k' y] r IH]; cbn; intros H; [discriminate|].
+  destruct (Nat.eqb_spec k k') as [->|N]; [inversion H; now left|right; now apply IH].
+Qed.
+Theorem strip_annotation_dict_keys fo toks dc clean desc ez ann :
+  wf toks dc = true -> excluded toks dc = false ->
+  strip_bonding_descriptors fo (render (decorate toks dc)) = Ok (clean, desc, ez, ann) -> NoDup (map fst ann).
+Proof.
+  intros W X H. rewrite (strip_correct fo toks dc W X) in H. unfold strip_spec, spec_items in H.
+  destruct (spec_run fo sinit (decorate toks dc)) as [sp'|] eqn:E; cbn in H; [|discriminate]. inversion H; subst.
+  apply (spec_run_nodup fo _ _ _ E); [intros k []|constructor].
+Qed.
